@@ -182,6 +182,13 @@ fn src_of(toks: &[String]) -> String {
     format!("begin {} end", toks.join(" "))
 }
 
+/// In a build with debug assertions / overflow checks the unchecked u32 operations panic on
+/// operands the instruction reference declares undefined (reference verdict DontCare). Those
+/// inputs are outside the property; every other panic is a violation in every build profile.
+fn debug_panic_on_undefined_input(real: &Outcome, verdict: &Verdict) -> bool {
+    cfg!(debug_assertions) && matches!(real, Outcome::Panic(_)) && matches!(verdict, Verdict::DontCare)
+}
+
 fn family(tok: &str) -> String {
     tok.split('.').next().unwrap().to_string()
 }
@@ -201,6 +208,11 @@ fn check_single(ctx: &Ctx, tok: &str, stack: &[u64], advice: &[u64], program: &R
                 json!({"kind": "single", "tok": tok, "stack": stack, "advice": advice}),
             );
         }
+    }
+    if debug_panic_on_undefined_input(&real, &verdict) {
+        // debug-assertion / overflow-check panic of an unchecked u32 operation on an operand the
+        // instruction reference declares undefined: outside the property, counted only
+        return (refglue::ref_class(&r), "DebugPanicOnUndefinedInput".into());
     }
     if let Outcome::Panic(p) = &real {
         ctx.fail(
@@ -317,7 +329,7 @@ impl<'a> Model for SeqModel<'a> {
                 case(),
             );
         }
-        if let Outcome::Panic(p) = &real {
+        if let (Outcome::Panic(p), false) = (&real, debug_panic_on_undefined_input(&real, &v)) {
             self.ctx.fail(
                 json!({"kind": "panic", "instr": family(a), "panic": mcx::guard::short_panic(p)}),
                 format!("{a} on {:?}", s.stack),
@@ -504,6 +516,11 @@ pub fn run(ctx: &Ctx, replay: Option<&Value>) -> i32 {
         "ext2mul follows the field definition x^2 = x - 2 (docs/src/design/stack/field_ops.md), the user-doc table abbreviates c1",
         "the exact depth (trailing zeros beyond position 15) is compared only where it is determined at instruction level; otherwise stacks are compared modulo trailing zeros",
         "clk is not compared here (C14 compares it with the trace)",
+        if cfg!(debug_assertions) {
+            "build profile of this run: `checked` (optimised, debug assertions and overflow checks ON in the harness and in every miden-vm crate): arithmetic that silently wraps in release panics here and is reported; debug panics of unchecked u32 operations on documented-undefined operands are counted (DebugPanicOnUndefinedInput), not reported"
+        } else {
+            "build profile of this run: release (overflow checks off, as shipped); the quick tier runs the same families under the `checked` profile"
+        },
     ])
 }
 
